@@ -249,7 +249,7 @@ func runC01(p params) error {
 		}
 		c := tk.EPConfig{Suites: suiteSets(), Ident: []string{"none", "cli", "cli", "cli-sig", "cli-untrusted", "cli-wrongeku"}[r.IntN(6)],
 			ServerName: pick([]string{"server.test", "server.test", ""}, []string{"wrong.test"}),
-			Roots: pick([]string{"ca"}, []string{"other"}), Insecure: r.IntN(6) == 0, Clone: r.IntN(2) == 0, PMTU: 4000}
+			Roots:      pick([]string{"ca"}, []string{"other"}), Insecure: r.IntN(6) == 0, Clone: r.IntN(2) == 0, PMTU: 4000}
 		s := tk.EPConfig{Suites: suiteSets(), Ident: pick([]string{"srv"}, []string{"rsa", "none"}), Auth: r.IntN(6), Clone: r.IntN(2) == 0, PMTU: 4000}
 		if valid { // overlapping suites and protocols
 			if c.Suites != nil && len(c.Suites) == 0 {
